@@ -14,6 +14,14 @@
 //! Oracle (independent of the model): exhaustive scan arg-min under the plugin's own distance measure
 //! (ties accepted), admissibility of the matched edge, tolerance rule in METRES via haversine for both
 //! matchers (0.2 % slack: the unit tables are only required to be within 0.1 %), other fields unchanged.
+//! The distance measure ITSELF is checked too, on the oracle's own geometry in plain f64 and without any of
+//! the plugin's distance functions: squared Euclidean coordinate distance to the vertex
+//! (`vertex-match/not-nearest-independent`), Euclidean distance to the oracle's own length-weighted
+//! linestring centroid (`edge-match/not-nearest-independent`), and the tolerance verdict on that centroid with
+//! the real haversine (`edge-match/tolerance-independent`), all with a guard band for the code's f32
+//! arithmetic (relative 1e-4 plus a few f32 ulps of the coordinates for the centroid).  Every fourth edge
+//! case is a bent-linestring scenario (L, hook, staircase against a straight competitor, the query where
+//! "nearest centroid" and "nearest bounding-box midpoint" disagree, tolerance between the two).
 use crate::ctx::{fbits, Ctx};
 use crate::jsonproto::{enc, hex};
 use crate::rng::Rng;
